@@ -76,3 +76,18 @@ Theorem C04_mozart_in_place_factor_then_solve :
     forall r, r < n -> nsum N n (fun c => nmul N (view N Ap A r c) (x c)) = b r.
 Proof. exact mozart_in_place_factor_then_solve. Qed.
 Print Assumptions C04_mozart_in_place_factor_then_solve.
+
+(* and for the separate-storage Doolittle pair: LuDecompositionDoolittle followed by LinearSolver::Solve, whatever the
+   L and U storage held before (the patterns returned by the symbolic phase are triangular, L's diagonal is stored as 1) *)
+Theorem C04_doolittle_factor_then_solve :
+  forall (N : Num)
+    (Nfield : field_theory (n0 N) (n1 N) (nadd N) (nmul N) (nsub N) (nopp N) (ndiv N) (ninv N) eq)
+    n (A : mat N) (Ap : pat) (L0 U0 : mat N) (b : vec N),
+    let Lp := fst (doolittle_sym n Ap) in
+    let Up := snd (doolittle_sym n Ap) in
+    let LU := doolittle_num N n A Ap Lp Up L0 U0 in
+    (forall i, i < n -> snd LU i i <> n0 N) ->
+    let x := lin_solve N n Lp Up (fst LU) (snd LU) b in
+    forall r, r < n -> nsum N n (fun c => nmul N (view N Ap A r c) (x c)) = b r.
+Proof. exact doolittle_factor_then_solve. Qed.
+Print Assumptions C04_doolittle_factor_then_solve.
